@@ -1,10 +1,12 @@
 (* C05 - the property theorems, and nothing else.  Each is closed by [exact] of a lemma
-   of C05/{Proofs,Gabor,Gammatone,Response,Bank}.v; the axioms each depends on are printed
-   beneath it.  All are statements about gen/Banks.v and gen/Scales.v, which are regenerated
-   from filters.py / util.py / config.py / scales.py on every run, through C05/Model.v. *)
+   of C05/{Proofs,Gabor,Gammatone,Response,Bank,Integrals}.v; the axioms each depends on are
+   printed beneath it.  All are statements about gen/Banks.v and gen/Scales.v, which are
+   regenerated from filters.py / util.py / config.py / scales.py on every run, through
+   C05/Model.v. *)
 From Coq Require Import Reals ZArith Bool.
 From Flocq Require Import Core.Raux.
-From Verif Require Import gen.Scales gen.Banks C05.Model C05.Proofs C05.Gabor C05.Gammatone C05.Response C05.Bank.
+From Coquelicot Require Import Coquelicot.
+From Verif Require Import gen.Scales gen.Banks C05.Model C05.Proofs C05.Gabor C05.Gammatone C05.Response C05.Bank C05.Integrals.
 Open Scope R_scope.
 
 Theorem mel_scale_ok :
@@ -484,4 +486,70 @@ Theorem tri_leeway_admits_inverted_range :
   exists low high rate : R, ~ tri_rejects_some low high rate /\ tri_high_some high rate < low.
 Proof. exact tri_leeway_admits_inverted_range_l. Qed.
 Print Assumptions tri_leeway_admits_inverted_range.
+
+Theorem gabor_freq_resp_three_images :
+  forall (l2 : bool) (std c lowest highest : R) (width k : Z),
+       - (2 * PI) < lowest ->
+       0 <= highest < 2 * PI ->
+       gabor_freq_resp l2 std c lowest highest width k =
+       gabor_image l2 std c ((IZR k / IZR width + -1) * 2 * PI) +
+       (gabor_image l2 std c ((IZR k / IZR width + 0) * 2 * PI) +
+        (gabor_image l2 std c ((IZR k / IZR width + 1) * 2 * PI) + 0)).
+Proof. exact gabor_freq_resp_three_images_l. Qed.
+Print Assumptions gabor_freq_resp_three_images.
+
+Theorem gabor_neighbour_images_negligible :
+  forall (erb : bool) (rate l r : R),
+       0 < rate ->
+       l < r ->
+       let std := gabor_self_stds_elt erb rate l r in
+       let c := gabor_self_centers_ang_elt rate l r in
+       2 * gabor_diff_ang false erb rate l r < PI ->
+       gabor_image false std c (c + 2 * PI) <= effective_support_threshold ^ 16 /\
+       gabor_image false std c (c - 2 * PI) <= effective_support_threshold ^ 16.
+Proof. exact gabor_neighbour_images_negligible_l. Qed.
+Print Assumptions gabor_neighbour_images_negligible.
+
+Theorem gamma_integral :
+  forall a : R,
+       0 < a ->
+       forall k : nat,
+       is_RInt_gen (G a k) (at_point 0) (Rbar_locally p_infty) (INR (fact k) / a ^ S k).
+Proof. exact G_integral. Qed.
+Print Assumptions gamma_integral.
+
+Theorem wallis_integral :
+  forall alpha xi : R,
+       0 < alpha ->
+       forall m : nat,
+       is_RInt_gen (W alpha xi (S m)) (Rbar_locally m_infty) (Rbar_locally p_infty) (u alpha m).
+Proof. exact W_integral. Qed.
+Print Assumptions wallis_integral.
+
+Theorem wallis_value_closed_form :
+  forall (alpha : R) (m : nat),
+       u alpha m = alpha * PI * INR (fact (2 * m)) / (2 ^ (2 * m) * INR (fact m) ^ 2).
+Proof. exact u_closed. Qed.
+Print Assumptions wallis_value_closed_form.
+
+Theorem gammatone_erb_integral :
+  forall (c alpha xi : R) (n : nat),
+       0 < alpha ->
+       0 < c ->
+       (1 <= n)%nat ->
+       is_RInt_gen
+         (fun w : R => (gammatone_H_abs c alpha xi n w / gammatone_H_abs c alpha xi n xi) ^ 2)
+         (Rbar_locally m_infty) (Rbar_locally p_infty) (gammatone_erb_ang alpha n).
+Proof. exact gammatone_erb_integral_l. Qed.
+Print Assumptions gammatone_erb_integral.
+
+Theorem gammatone_l2_integral :
+  forall (c alpha : R) (n : nat),
+       0 < alpha ->
+       0 < c ->
+       (1 <= n)%nat ->
+       is_RInt_gen (fun t : R => gammatone_h_abs c alpha n 0 t ^ 2) (at_point 0)
+         (Rbar_locally p_infty) (gammatone_l2sq c alpha n).
+Proof. exact gammatone_l2_integral_l. Qed.
+Print Assumptions gammatone_l2_integral.
 
